@@ -185,8 +185,10 @@ def run_check(pid, tier, seed):
     problems = []  # harness errors
     out_lines = []
 
+    known = load_known()
     agg = explore.explore(spec.path_fn, jobs, repo=world.REPO, chunk=spec.chunk, wall_cap=spec.wall_cap(tier),
-                          seed=seed, opts=dict(sample_rate=4))
+                          seed=seed, opts=dict(sample_rate=4),
+                          ignore_labels=[k["clause"] for k in known if k["property"] == pid])
     if agg["truncated"]:
         problems.append(f"exploration truncated after {agg['wall_s']:.0f}s ({agg['paths']} paths)")
     for j, tr, e in agg["errors"][:3]:
